@@ -1564,7 +1564,7 @@ func (fr *Frame) slice(t *ssa.Slice) {
 			if t.Low != nil {
 				unsup("makeslice with low bound")
 			}
-			p := vc.newAlloc(fr.st, true)
+			p := vc.newAllocSlice(fr.st, arr.Elem())
 			vc.markFresh(arr.Elem())
 			fr.vals[t] = Val{T: mkSlice(p, hi, n)}
 			return
@@ -1576,7 +1576,7 @@ func (fr *Frame) slice(t *ssa.Slice) {
 		if t.Low != nil || t.High != nil || t.Max != nil {
 			unsup("partial slice of array")
 		}
-		p := vc.newAlloc(fr.st, true)
+		p := vc.newAllocSlice(fr.st, arr.Elem())
 		vc.markFresh(arr.Elem())
 		for k := int64(0); k < n; k++ {
 			vc.storeAt(fr.st, elemPtr(p, bvLit(uint64(k), 64)), arr.Elem(), si.get(av, int(k)))
@@ -1595,7 +1595,7 @@ func (fr *Frame) makeSlice(t *ssa.MakeSlice) {
 	c := fr.idx64(fr.term(t.Cap), t.Cap.Type())
 	// makeslice panics for negative or len > cap
 	fr.check("makeslice", t.Name(), and(app(SBool, "bvule", l, c), app(SBool, "bvule", c, Term{"#x0000010000000000", bvSort(64)})), t.Pos())
-	p := vc.newAlloc(fr.st, true)
+	p := vc.newAllocSlice(fr.st, t.Type().Underlying().(*types.Slice).Elem())
 	vc.markFresh(t.Type().Underlying().(*types.Slice).Elem())
 	fr.vals[t] = Val{T: vc.name(t.Name(), mkSlice(p, l, c))}
 }
